@@ -7,7 +7,7 @@ WT=/tmp/seedchk-$$
 git -C /repo worktree add -q --detach $WT HEAD || exit 3
 run() { (cd $WT && PYTHONPATH=$WT/src:$WT timeout 900 /venv/bin/python "$SRC/demo.py" >/tmp/seedchk-$$.out 2>&1; echo $?); }
 clean_rc=$(run)
-(cd $WT && (git apply "$SRC/patch.diff" 2>/dev/null || git apply -3 "$SRC/patch.diff" 2>/dev/null || patch -p1 -F3 -s < "$SRC/patch.diff")) || { echo "$NAME: PATCH DOES NOT APPLY"; git -C /repo worktree remove --force $WT; exit 3; }
+(cd $WT && (git apply "$SRC/patch.diff" 2>/dev/null || patch -p1 -F3 -s < "$SRC/patch.diff")) || { echo "$NAME: PATCH DOES NOT APPLY"; git -C /repo worktree remove --force $WT; exit 3; }
 mut_rc=$(run)
 tests=$(cd $WT && PYTHONPATH=$WT/src:$WT env -u PRIVATE_PGM_VERIF /venv/bin/python -m pytest -q -p no:cacheprovider --timeout=900 --continue-on-collection-errors 2>&1 | tail -1)
 (cd $WT && git diff) > /tmp/seedchk-$$.diff
